@@ -30,7 +30,7 @@ def main(ctx):
         sources = list(sched.QUICK_SOURCES) + [(f, []) for f in fx if f not in [s for s, _ in sched.QUICK_SOURCES]]
         configs = [(1, 0), (2, ctx.seed * 7 + 1), (4, ctx.seed * 7 + 2), (16, ctx.seed * 7 + 3), (16, 0),
                    (3, ctx.seed * 7 + 4)]
-        sim_sources, sim_n, slice_max, slice_timeout, slice_sources = 12, 400, 11, 900, 8
+        sim_sources, sim_n, slice_max, slice_timeout, slice_sources = 6, 150, 10, 900, 5
     sources += [(p, fl) for (_label, p, fl) in sched.scheduler_minifonts(ctx)]
     common.log("tracing %d sources x %d configs" % (len(sources), len(configs)))
     builds = sched.traced_builds(ctx, sources, configs)
@@ -196,8 +196,8 @@ def main(ctx):
             sl_jobs.append((key[0], name, real, sp))
     # biggest first, bounded number
     sl_jobs.sort(key=lambda j: -j[2])
-    fixture_jobs = [j for j in sl_jobs if "/minifonts/" not in j[0]][: (4 if quick else 40)]
-    sl_jobs = fixture_jobs + [j for j in sl_jobs if "/minifonts/" in j[0]][: (6 if quick else 60)]
+    fixture_jobs = [j for j in sl_jobs if "/minifonts/" not in j[0]][: (4 if quick else 14)]
+    sl_jobs = fixture_jobs + [j for j in sl_jobs if "/minifonts/" in j[0]][: (6 if quick else 16)]
     common.log("exhaustive model checking of %d graph slices" % len(sl_jobs))
 
     def bfs(job):
@@ -220,7 +220,7 @@ def main(ctx):
 
     # larger ancestor-closed slices under the lazy-send reduction (SpecLazy): breadth-first over the behaviours
     # in which completion messages are delivered as late as possible
-    lazy_max = 18 if quick else 24
+    lazy_max = 18 if quick else 22
     lz_jobs = []
     for key in model_keys:
         gj, gpath = graphs_by_src[key]
@@ -235,7 +235,7 @@ def main(ctx):
             lz_jobs.append((key[0], name, real, sp))
     # generated sources first (small graphs that exercise the dynamic parts), smaller slices first
     lz_jobs.sort(key=lambda j: ("/minifonts/" not in j[0], "own-notdef" not in j[0], j[2]))
-    lz_jobs = lz_jobs[: (7 if quick else 80)]
+    lz_jobs = lz_jobs[: (7 if quick else 24)]
     common.log("lazy-send model checking of %d larger slices" % len(lz_jobs))
 
     def lazy(job):
